@@ -90,6 +90,14 @@ CLAIMED["C17"] = dict(
     note="Termination is established only for the enumerated documents; a TIMEOUT is evidence, not a proof, of non-termination. Trusted: R4, the sandbox (mc/sandbox.py), strace/inotify for the entity monitor.",
     design="DESIGN.md 3/C17",
 )
+RENDER_NOTE = "Trusted: the reference renderer R3 (mc/ref/scene.py, rule set in DESIGN Appendix A, self-tested against analytic cases and cross-checked against Skia's point containment), R1/R2. Verdicts hold at the enumerated sample points (lattice + edge probes) outside the 0.4% band only."
+CLAIMED["C02"] = dict(
+    level="exploration",
+    technique="bounded-exhaustive enumeration of structural documents (shape x transform lists, ancestor chains of g/use/nested svg, instancing arrangements, viewport parameter products) rendered by an independent point evaluator before and after conversion",
+    text="Every document of four finite families is converted; source and output are rendered by the independent evaluator R3 at a fixed lattice plus geometry-derived probe points and compared by canonical paint stack (order, colours, alphas) and composited colour. Exhaustive over the stated document families; a bounded claim over a continuous domain.",
+    note=RENDER_NOTE,
+    design="DESIGN.md 3/C02",
+)
 NOT_YET = "check not built yet in this session (design in DESIGN.md section 3); no claim is made"
 
 checks = []
